@@ -1218,6 +1218,11 @@ def user_case(ck, k, c, ls, mblocks, strip, replay_of, crash):
     prevA = None
     stopped = False
     ns_seen = False
+    implicit_seen = ""
+    if crash and steps:
+        # the process died: the output of the last step may be cut anywhere
+        steps[-1].pop("AS", None)
+        steps[-1].pop("BS", None)
     for s in steps:
         if s["skipped"]:
             continue
@@ -1237,6 +1242,7 @@ def user_case(ck, k, c, ls, mblocks, strip, replay_of, crash):
             if s["name"] == "add_col" and int(fa["m"]) > int(prevA["m"]):
                 implicit = "implicit-row"
         if implicit:
+            implicit_seen = implicit
             ck.count("user:" + implicit)
         if "EXC" in s:
             ck.violation("exception:" + s["name"], "an SPxException escaped in step %d (%s): %s" % (opi, optext, s["EXC"]), dict(rp, observed=s["EXC"]))
@@ -1385,6 +1391,20 @@ def user_case(ck, k, c, ls, mblocks, strip, replay_of, crash):
         last = steps[-1] if steps else {"k": 0, "name": "load"}
         nxt = c["ops"][last["k"]][0] if last["k"] < len(c["ops"]) and "F" in last else last["name"]
         hang = "sig=14" in crash[0]
+        if not implicit_seen and last["k"] < len(c["ops"]) and "F" in last and "A" in last:
+            # the operation that never returned may itself create a column / row implicitly
+            o = c["ops"][last["k"]]
+            fl = parse_fields(last["A"])
+            if o[0] == "add_row" and o[3] != "-" and max(int(t.split(":")[0]) for t in o[3].split(",")) >= int(fl["n"]):
+                implicit_seen = "implicit-col"
+            if o[0] == "add_col" and o[4] != "-" and max(int(t.split(":")[0]) for t in o[4].split(",")) >= int(fl["m"]):
+                implicit_seen = "implicit-row"
+        if implicit_seen:
+            ck.violation("%s-scale-exp:crash" % implicit_seen,
+                         "%s (%s) in step %d (%s) of a history in which a %s was created implicitly under persistent scaling (scale exponents read beyond the array)"
+                         % ("no return within 90 s" if hang else "crash", crash[0], last["k"] + (1 if "F" in last else 0), nxt,
+                            "column" if implicit_seen == "implicit-col" else "row"), {"case": replay_of(c, last["k"] + 1), "observed": ls[-6:]})
+            return stopped
         if ns_seen and nxt == "solve" and not hang:
             ck.violation("null-scaler-deref:optimize", "optimize() crashed (%s) in step %d: SCALER had been switched off (and PERSISTENTSCALING as well, so that _optimize does "
                          "not unscale) while the LP is still persistently scaled; the solution is unscaled through the null _scaler" % (crash[0], last["k"] + 1),
